@@ -11,9 +11,12 @@
    object lies inside the heap.  view s i = what reading object i shows (token of every attribute
    slot, token of the effective style, label).  lown s i = the cells a live object can reach. *)
 From Coq Require Import List Bool Arith.
-From MV Require Import Model.ForestModel Model.ForestExec Model.CopyModel
-  Proofs.ForestInv Proofs.CopyBase Proofs.CopyProofs.
+From MV Require Import Gen.GenForest Model.ForestPinned Model.ForestModel Model.ForestExec Model.CopyModel
+  Model.LabelModel Proofs.ForestInv Proofs.CopyBase Proofs.CopyProofs Proofs.LabelProofs Proofs.ForestFrame Proofs.CopyFrame.
 Import ListNotations.
+From Coq Require String.
+Import String.StringSyntax.
+Local Open Scope string_scope.
 
 Theorem C18_copy_parentless : forall s x kws, WF s -> live (fs s) x = true ->
   parent (get (fs (copy s x kws)) (length (fs s) + x)) = None.
@@ -97,3 +100,74 @@ Theorem C18_override_cells_separated : forall s x kws, WF s -> live (fs s) x = t
   forall i, i < length (fs s) -> ~ In c (lown s' i).
 Proof. exact override_cells_separated. Qed.
 Print Assumptions C18_override_cells_separated.
+
+(* ---- independence under ANY later history.  After the copy, apply any finite sequence `ls` of
+   operations to objects of ONE side b (b = true: the originals, ids < n; b = false: the objects of the
+   copy, ids >= n):  LTree o = a C11 tree operation that creates no object (add, remove, parent
+   assignment, children/sources/sensors/collections assignment; every id it mentions on side b),
+   LWrite c v = an in-place write into a cell reachable from a live object of side b,
+   LKw i k = a rebinding setter / style update / label assignment on a live object i of side b
+   (lrun_ok checks these side conditions along the run).  Then for every object j of the OTHER side
+   nothing observable changes: its record (parent, children, sources, sensors, collections), its
+   flattened views, and everything it shows (attribute values, effective style, label). *)
+Theorem C18_later_ops_frame : forall s x kws, WF s -> live (fs s) x = true ->
+  let u0 := copy s x kws in let n := length (fs s) in
+  forall (b : bool) (ls : list lop), lrun_ok n b u0 ls ->
+  let u := lrun u0 ls in
+  forall j, side n j <> b ->
+    get (fs u) j = get (fs u0) j /\
+    children_all (fs u) j = children_all (fs u0) j /\
+    sources_all (fs u) j = sources_all (fs u0) j /\
+    sensors_all (fs u) j = sensors_all (fs u0) j /\
+    collections_all (fs u) j = collections_all (fs u0) j /\
+    (is_junk (fs u0) j = false -> view u j = view u0 j).
+Proof. exact later_ops_frame. Qed.
+Print Assumptions C18_later_ops_frame.
+
+(* the underlying footprint lemma of the C11 model: a tree operation that mentions only objects of one
+   side of a link-closed partition changes only objects of that side and keeps the partition closed *)
+Theorem C18_step_frame : forall (n : nat) (b : bool) (s : state) (o : op),
+  Closed n s -> op_on n b o -> FR n b s (fst (step repaired s o)).
+Proof. exact step_frame. Qed.
+Print Assumptions C18_step_frame.
+
+Example C18_later_ops_nonvacuous :
+  lrun_ok 2 false (copy ex_world 1 [])
+    [LTree (Remove 3 [2] true ERaise); LKw 2 (KwAttr 0 7); LTree (Add 3 [2] false);
+     LKw 3 (KwStyle 5)].
+Proof. exact later_ops_example. Qed.
+
+(* ---- the iterated label on actual (ASCII) strings: Model/LabelModel.v mirrors add_iteration_suffix
+   (maximal run of trailing digits incremented with its width kept, otherwise `_01` appended, no second
+   `_`); num s = the number a label ends with (0 if none) *)
+Theorem C18_label_counter : forall s : chars, num (iter_chars s) = S (num s).
+Proof. exact num_iter. Qed.
+Print Assumptions C18_label_counter.
+
+(* the label of a copy always differs from the label of the original (any ASCII label, also '') *)
+Theorem C18_label_differs : forall s : String.string, iter_str s <> s.
+Proof. exact iter_str_differs. Qed.
+Print Assumptions C18_label_differs.
+
+(* copies of copies never repeat a label *)
+Theorem C18_label_iterates_distinct : forall (s : chars) (j k : nat), iterN j s = iterN k s -> j = k.
+Proof. exact iterates_distinct. Qed.
+Print Assumptions C18_label_iterates_distinct.
+
+(* but iterating is NOT injective on labels: 'a' and 'a_' (and 'a_00') all give 'a_01' - copies of
+   DIFFERENT originals may get the same label (the property text does not ask for more) *)
+Theorem C18_label_injective_refuted :
+  exists a b : String.string, a <> b /\ iter_str a = iter_str b.
+Proof. exact iter_not_injective. Qed.
+Print Assumptions C18_label_injective_refuted.
+
+(* the tie to the source text for the methods CopyModel mirrors: BaseGeo.copy, the lazy style getter,
+   the parent setter and add_iteration_suffix are the ones the model was written against (AST
+   fingerprints regenerated from /repo on every run); any edit of one of them breaks this obligation *)
+Definition c18_methods : list String.string :=
+  (["BaseGeo.copy"; "BaseGeo.style:getter"; "BaseGeo.parent:setter"; "utility.add_iteration_suffix"])%list.
+Definition pick (l : list (String.string * String.string)) : list (String.string * String.string) :=
+  filter (fun p => existsb (String.eqb (fst p)) c18_methods) l.
+Example C18_model_pinned_to_source :
+  pick forest_fingerprints = pick pinned_forest_fingerprints /\ length (pick forest_fingerprints) = 4.
+Proof. split; reflexivity. Qed.
